@@ -40,6 +40,14 @@ def gen_spec(rng, **over):
         rep = 'ALL'
     else:
         rep = hyd * rng.choice([1, 1, 1, 2, 3])
+        # a report step smaller than the hydraulic step (the simulators then shorten the hydraulic step): side stream, so that the
+        # rest of the corpus stays what it was
+        import random as _random
+        r2 = _random.Random(hyd * 31 + steps * 7 + int(pat_ts))
+        if rep == hyd and r2.random() < 0.12:
+            k_ = r2.choice([2, 2, 3, 4])
+            if hyd % k_ == 0 and hyd // k_ >= 60:
+                rep = hyd // k_
     opt = {'hydraulic_timestep': hyd, 'pattern_timestep': pat_ts, 'report_timestep': rep,
            'duration': hyd * steps, 'rule_timestep': rng.choice([hyd, max(60, hyd // 10), 360, 300]),
            'pattern_start': 0, 'start_clocktime': 0,
